@@ -18,25 +18,32 @@ int main(int argc, char** argv) {
   std::stable_sort(groups.begin(), groups.end(), [](const ApiGroup& a, const ApiGroup& b) { return a.N > b.N; });
   ctx.name_metric(0, "module_memory_snapshots");
   ctx.name_metric(1, "source_buffers_compared");
-  ctx.parallel(groups.size(), [&](uint64_t gi) {
-    const ApiGroup& G = groups[gi];
-    MODULE* mod = get_module(G.N, G.mtype == 0 ? FFT64 : NTT120, G.cfg);
-    ExecResult r;
-    run_group(G, o, [&](ApiCase& c) {
-      if (!ctx.want(c.id)) return;
-      ctx.begin_case(c.id);
-      uint64_t h0 = module_hash(mod);
-      ExecOpts eo; eo.prefill = 1;
-      execute(c, eo, r);
-      std::string err = judge_model(c, r, false, true);
-      if (err.empty() && module_hash(mod) != h0) err = "the MODULE or one of its precomputed tables was modified by the call";
-      if (!err.empty()) ctx.violation(c.id, err);
-      int nsrc = 0;
-      for (auto& b : c.bufs) if (b.role == R_IN && b.bytes) nsrc++;
-      ctx.metric_add(0); ctx.metric_add(1, nsrc);
-      ctx.end_case(nsrc > 0);
-    });
-  }, "module entry points");
+  auto run_groups = [&](const std::vector<ApiGroup>& gs, const BoxOpts& bo, const char* phase) {
+    ctx.parallel(gs.size(), [&](uint64_t gi) {
+      const ApiGroup& G = gs[gi];
+      MODULE* mod = get_module(G.N, G.mtype == 0 ? FFT64 : NTT120, G.cfg);
+      ExecResult r;
+      run_group(G, bo, [&](ApiCase& c) {
+        if (!ctx.want(c.id)) return;
+        ctx.begin_case(c.id);
+        uint64_t h0 = module_hash(mod);
+        ExecOpts eo; eo.prefill = 1;
+        execute(c, eo, r);
+        std::string err = judge_model(c, r, false, true);
+        if (err.empty() && module_hash(mod) != h0) err = "the MODULE or one of its precomputed tables was modified by the call";
+        if (!err.empty()) ctx.violation(c.id, err);
+        int nsrc = 0;
+        for (auto& b : c.bufs) if (b.role == R_IN && b.bytes) nsrc++;
+        ctx.metric_add(0); ctx.metric_add(1, nsrc);
+        ctx.end_case(nsrc > 0);
+      });
+    }, phase);
+  };
+  run_groups(groups, o, "module entry points");
+  BoxOpts ol = large_layer(args.thorough(), o.cf);
+  std::vector<ApiGroup> lgroups = api_groups(ol);
+  std::stable_sort(lgroups.begin(), lgroups.end(), [](const ApiGroup& a, const ApiGroup& b) { return a.N > b.N; });
+  run_groups(lgroups, ol, "module entry points, large ring dimensions");
   // exported kernels (q120, reim, reim4, cplx, coefficient kernels): const operands and tables
   std::vector<KernelGroup> kg = kernel_groups(args.thorough());
   ctx.parallel(kg.size(), [&](uint64_t gi) {
